@@ -818,9 +818,10 @@ async fn execute_async(case: &Case) -> Exec {
         let attribute = |path: &Path| -> &'static str {
             // a root cause the harness itself witnessed earlier for this binary, so that any other
             // way of reaching the same discrepancy keeps its own signature
-            if st.lookup_failed_while_alive.contains(path) {
-                "/after_pid_lookup_error"
-            } else if env.glue == Glue::Direct && untracked_after_failed_start.contains(path) {
+            // (a pid lookup that fails for a live process used to be a root cause of its own; since the
+            // repair in /repo it leaves the record alone, so it gets no attribution any more and would
+            // be reported under the plain signature should it return)
+            if env.glue == Glue::Direct && (untracked_after_failed_start.contains(path) || st.lookup_failed_post_launch.contains(path)) {
                 // (under the CLI glue every command refreshes the registry first, which repairs this
                 // record on the unchanged tree: there the discrepancy keeps its plain signature)
                 "/after_start_failed_post_launch"
